@@ -1223,6 +1223,15 @@ func (c *SpecCtx) modTarget(e ast.Expr) []modTarget {
 			}
 			return out
 		}
+		// allof(x.f): field f of every object of x's struct type (x only names the type)
+		if id, ok := e.Fun.(*ast.Ident); ok && id.Name == "allof" {
+			l := c.locOf(e.Args[0])
+			var out []modTarget
+			for _, lf := range flatten(l.T) {
+				out = append(out, modTarget{whole: true, key: l.Root + "|" + l.Path + lf.Path, sort: lf.Sort})
+			}
+			return out
+		}
 		// mapof(m): whole map
 		if id, ok := e.Fun.(*ast.Ident); ok && id.Name == "mapof" {
 			s := c.deref(c.eval(e.Args[0]))
